@@ -36,6 +36,9 @@ claimed = {
  "C06": ("state-machine extraction on SSA: path walk of every Process<Scope> with the returned action bound to each State constant (phi and string-test resolution, NONE remapping followed) compared with the Fastly transition table; successor-count dataflow over {0,1,2+} to every may-succeed return; restart guard dominance and limit constant; cache branch selection by nil-ness of cache.Get with marker/flag pairing; who-may-assign the cross-request stores; report field census",
          "Structural necessary conditions: all 98 (scope, action) cells of the compiled transition function equal the documented table; every successful path through a non-terminal scope calls exactly one successor (so vcl_log runs last and once); restart re-enters vcl_recv only below three restarts; hit/miss is chosen by the cache lookup of the request hash and recorded in ctx.State/X-Cache and process.Cached; cache, rate counters and penalty boxes are created once per simulator; the report reads what was recorded. Decides the transition structure for all programs; not cache expiry arithmetic or counter values.",
          "trusts go/ssa; the transition table in c06.go is a transcription of the property statement and the Fastly lifecycle the code cites; one named exception (purge requests stop after vcl_recv)", "DESIGN.md §4 C06"),
+ "C07": ("table extraction and sibling cross-checking on typed syntax and SSA: operator→implementation dispatch tables (string-switch arms, operand order), per-cell kernel operator agreement (every expression combining a left-derived with a right-derived operand uses the function's own Go operator, orientation for non-commutative ones), sibling/duality comparison of the four ordering operators up to renaming, negation derivation of != and !~, not-set consultation, ACL scan rules (no early verdict, negation under containment, family-dependent default mask, prefix-length comparison), rotate rules (no signed right shift, direction), branch selection dominance for if/else-if/else and switch/case/fallthrough",
+         "Structural necessary conditions: each VCL operator reaches the function that implements it with operands in order; in each (left type, right type) cell the operands are combined with that operator; <,>,<=,>= agree cell by cell and are mirror images; != and !~ negate == and ~; ACL matching is order independent, honours negation only for containing entries and picks by prefix length; rotation is a bit rotation in the right direction; a block runs only under the truth of its own condition, one block per chain, first matching case wins. A one-token edit in any cell is caught for all operands of those types. Does not decide numeric results (saturation thresholds, rounding) or regex matching.",
+         "trusts go/types + go/ssa; spec tables in c07.go transcribe the operator list of the property statement; library methods Compare/Equal/Add/Sub/math.Mod are treated as the operators they are", "DESIGN.md §4 C07"),
  "C17": ("pairing/typestate rules on SSA: canonicaliser requirement on the assigned-key set (same callee in IsAssigned/Assign/Unassign, who-may-touch), must-follow path analysis pairing Header.Del with Unassign and Header.Set/Add with Assign on the same key (canonical access paths), case-insensitive comparison rule for loops over canonical header keys, separator agreement",
          "Structural necessary conditions of the header store laws: the set/not-set bookkeeping is keyed canonically like net/http; every VCL-visible delete un-assigns and every write assigns the same key on every path; wildcard matching compares canonical forms. Decides the keying/pairing shape for all histories and spellings; not the sub-field regular-expression algebra.",
          "trusts go/ssa; scope of hdr.pair is interpreter/variable (the VCL-visible write paths)", "DESIGN.md §4 C17"),
